@@ -4,6 +4,7 @@ use std::collections::HashMap;
 
 mod auth;
 mod cluster;
+mod decode;
 mod life;
 mod mailbox;
 mod outport;
@@ -81,6 +82,7 @@ fn main() {
         "outport" => outport::run(&args),
         "pg" => pg::run(&args),
         "pg_race" => pg::race(&args),
+        "decode_drop" => decode::run(&args),
         "rpc" => rpc::run(&args),
         "timers" => timers::run(&args),
         "select_listen" => select::listen(&args),
